@@ -82,14 +82,15 @@ class Obligation2:
 
 
 class St:
-    __slots__ = ('env', 'facts')
+    __slots__ = ('env', 'facts', 'pend')
 
-    def __init__(self, env=None, facts=None):
+    def __init__(self, env=None, facts=None, pend=None):
         self.env = env or {}
         self.facts = facts or set()
+        self.pend = pend or {}        # member path key -> (qualified field, value, line): stores not yet visible to other functions
 
     def copy(self):
-        return St(dict(self.env), set(self.facts))
+        return St(dict(self.env), set(self.facts), dict(self.pend))
 
 
 def join_states(a, b, min_sizes=None):
@@ -112,7 +113,25 @@ def join_states(a, b, min_sizes=None):
                     ms = min_sizes.get(f[2])
                     if v is not None and ms is not None and not v.f and v.lo >= 0 and v.hi <= ms - 1:
                         dst.add(f)
-    return St(env, fa & fb)
+    pend = {}
+    def narrowed(stt, k):
+        p = stt.pend.get(k)
+        if p is None:
+            return None
+        cur = stt.env.get(k)
+        v = p[1]
+        if cur is not None and not cur.f and not v.f:
+            lo, hi = max(v.lo, cur.lo), min(v.hi, cur.hi)
+            if lo <= hi:
+                v = V(lo, hi, v.f, v.inp, v.vf)
+        return (p[0], v, p[2])
+    for k in set(a.pend) | set(b.pend):
+        pa, pb = narrowed(a, k), narrowed(b, k)
+        if pa is not None and pb is not None:
+            pend[k] = (pa[0], pa[1].join(pb[1]), pa[2])
+        else:
+            pend[k] = pa or pb
+    return St(env, fa & fb, pend)
 
 
 class Engine2:
@@ -746,6 +765,19 @@ class Engine2:
                 out.add(cont)
         return out
 
+    def flush(self, st):
+        """make pending member stores visible (function exit, or before a call that may read the member)"""
+        if not st.pend:
+            return
+        for key, (fld, val, ln) in list(st.pend.items()):
+            cur = st.env.get(key)
+            if cur is not None and not cur.f and not val.f:
+                lo, hi = max(val.lo, cur.lo), min(val.hi, cur.hi)
+                if lo <= hi:
+                    val = V(lo, hi, val.f, val.inp, val.vf)
+            self.stores.append((fld, val, self.fn.name, ln))
+        st.pend = {}
+
     def assign_to(self, tgt, val, st, op='=', rhs_expr=None):
         t = strip_keep(tgt)
         key = self.key_of(t)
@@ -753,9 +785,12 @@ class Engine2:
         if val is not None and trange(tt) is not None:
             val = convert(val, tt)
         if t.get('k') == 'MemberExpr':
-            if val is not None and self.record_stores:
+            same_field_copy = rhs_expr is not None and strip(rhs_expr).get('k') == 'MemberExpr' and strip(rhs_expr).get('n') == t.get('n')
+            if val is not None and self.record_stores and not same_field_copy:     # `x = other.x` introduces no new value of the field
                 val = V(val.lo, val.hi, val.f, val.inp, frozenset(self._validated(rhs_expr, val, st)) if rhs_expr is not None else val.vf)
-                self.stores.append((t.get('n'), val, self.fn.name, t.get('ln')))
+                # the store becomes visible to other functions at the next call or at function exit; a later store to the same path
+                # (e.g. the clamp `if(x < 0) x = 0;`) replaces it, a branch condition on the member narrows it
+                st.pend[('f', show(t))] = (t.get('n'), val, t.get('ln'))
             # a store to a member invalidates every cached path ending in the same field
             fld = short(t.get('n', ''))
             for k2 in [k2 for k2 in st.env if k2[0] == 'f' and (k2[1].endswith('.' + fld) or k2[1].endswith('->' + fld) or k2[1] == fld)]:
@@ -823,6 +858,8 @@ class Engine2:
                     nv = V(r.lo, r.hi, False, x.inp)
             self.assign_to(e['e'], nv, st)
         elif 'callee' in e or 'callee_e' in e:
+            if self.record_stores and not (e.get('callee', '') in ('std::min', 'std::max') or short(e.get('callee', '')) in self.MONO or e.get('cmeth')):
+                self.flush(st)
             if e.get('callee') and not trange(e.get('t') or {}):
                 self._record_call(e, st)       # value-returning calls are recorded when they are evaluated
             # non-const calls may change members reached through the object; by-reference arguments are havocked
@@ -870,6 +907,8 @@ class Engine2:
                     for c in conts:
                         st.facts.add(('lt_size', key, c))
         outs, exits = self.stmt(fn.tree, st)
+        if outs is not None and self.record_stores:
+            self.flush(outs)
         return outs
 
     def block(self, stmts, st):
@@ -923,6 +962,8 @@ class Engine2:
             if s.get('e') is not None:
                 self.exec_expr(s['e'], st)
                 self.returns.append(self.ev(s['e'], st))
+            if self.record_stores:
+                self.flush(st)
             return None, [('return', st)]
         if k == 'BreakStmt':
             return None, [('break', st)]
@@ -1078,6 +1119,8 @@ class Engine2:
     def loop(self, s, st):
         k = s['k']
         st = st.copy()
+        if self.record_stores:
+            self.flush(st)
         if k == 'ForStmt' and s.get('init') is not None:
             st, _ = self.stmt(s['init'], st)
             if st is None:
@@ -1164,6 +1207,10 @@ class Engine2:
             self.exec_expr(cond, bst)
             self.refine(cond, True, bst)
         f, ex = self.stmt(body, bst)
+        if self.record_stores:
+            for s_ in [f] + [sx for kind, sx in ex]:
+                if s_ is not None:
+                    self.flush(s_)
         if inc is not None and f is not None:
             f = f.copy()
             self.check_expr(inc, f)
